@@ -104,8 +104,8 @@ class ModuleInfo:
         return ast.get_source_segment(self.text, node) or ""
 
     def describe(self, node, qual):
-        seg = self.segment(node)
-        return {"function": self.fq(qual), "lines": [node.lineno, node.end_lineno],
+        seg = self.segment(node) if hasattr(node, "lineno") else self.text
+        return {"function": self.fq(qual), "lines": [getattr(node, "lineno", 1), getattr(node, "end_lineno", len(self.text.splitlines()))],
                 "sha256": hashlib.sha256(seg.encode()).hexdigest()[:16]}
 
 
@@ -118,10 +118,15 @@ class SourceRegistry:
             self.mods[relpath] = ModuleInfo(relpath, self)
         return self.mods[relpath]
 
-    def function(self, target):
+    def function(self, target, locate=None):
         """target = 'pyerrors/obs.py::Obs.gamma_method::_compute_drho'"""
         rel, qual = target.split("::", 1)
         mod = self.module(rel)
+        if locate is not None:
+            node = locate(mod)
+            if node is None:
+                raise CheckerError("contract no longer binds: %s not located in %s" % (qual, rel))
+            return mod, node
         node = mod.functions.get(qual)
         if node is None:
             raise CheckerError("contract no longer binds: %s not found in %s" % (qual, rel))
